@@ -43,6 +43,8 @@ func (o Op) Label() string {
 		return fmt.Sprintf("%s(%s,%s)", o.K, o.Sub, o.Sel)
 	case "updateSub", "modifyPush", "updateSubDL":
 		return fmt.Sprintf("%s(%s)", o.K, o.Sub)
+	case "reconfig":
+		return fmt.Sprintf("reconfig(%s,%s)", o.Sub, o.Tgt)
 	case "streamModack":
 		return fmt.Sprintf("streamModack(%s,%s,%v)", o.Sub, o.Sel, o.D)
 	case "updateTopic":
@@ -273,7 +275,7 @@ func (m *Model) Prepare(op Op, now time.Time) (Call, bool) {
 		return c, true
 	case "pull":
 		return c, true
-	case "updateSub", "modifyPush", "updateTopic", "updateSubDL":
+	case "updateSub", "modifyPush", "updateTopic", "updateSubDL", "reconfig":
 		return c, true
 	case "ack", "modack", "nack", "acknack", "streamModack":
 		s := m.Subs[op.Sub]
